@@ -827,6 +827,38 @@ def _randint(*args, size=None, **kw):
 TF["randint"] = _randint
 
 
+def _multinomial(ps, num_samples, replacement=False, **kw):
+    """torch.multinomial(ps [B,N], n, replacement) (assumed contract): n column indices per row, each of positive weight; without
+    replacement pairwise distinct. WF obligation (torch silently returns zero-weight categories or raises otherwise): with
+    replacement every row has a positive weight, without replacement at least n of them."""
+    from .core import input_tensor
+
+    if ps.rank != 2 or not isinstance(num_samples, int):
+        raise Unsupported("multinomial: only [B, N] weights and a concrete number of samples")
+    if not isinstance(replacement, bool):
+        raise Unsupported("multinomial: symbolic replacement flag")
+    B, N = ps.shape
+    n = num_samples
+    pos = ops.to_dtype(binop("gt", ps, 0), "i")
+    cnt = reduce("sum", pos, 1)
+    cs = cnt.snap()
+    ops.wf_forall((B,), lambda I: zint(cs(I)) >= (1 if replacement else n), "multinomial-enough-support")
+    _RAND[0] += 1
+    sel = input_tensor(f"multinomial{_RAND[0]}", (B, n), "i")
+    ss, pp = sel.snap(), ps.snap()
+    ops.assume_forall((B, n), lambda I: z3.And(ss(I) >= 0, ss(I) < zint(N), pp((I[0], ss(I))) > 0))
+    if not replacement:
+        for a in range(n):
+            for c in range(a + 1, n):
+                ops.assume_forall((B,), lambda I, a=a, c=c: ss((I[0], a)) != ss((I[0], c)))
+    cur().notes.append("assumed contract of torch.multinomial: indices of positive weight, pairwise distinct without replacement; support size is a WF obligation")
+    return sel
+
+
+TF["multinomial"] = _multinomial
+TM["multinomial"] = _multinomial
+
+
 def _float_tensor(*size, **kw):
     """torch.FloatTensor(*size) / torch.empty: uninitialised memory = an arbitrary float tensor."""
     from .core import input_tensor
